@@ -174,6 +174,7 @@ def check_one(c, args, repo_root):
         out["error"] = "%s: %s" % (type(ex).__name__, ex)
         return out
     # pre-state values for old()
+    env["rng_n"] = 0
     compiled = {}
     pre = {}
     all_exprs = list(c.ensures)
@@ -196,6 +197,15 @@ def check_one(c, args, repo_root):
     call_args = [real[p] for p in c.params if p != "cls"]
     raised = None
     result = None
+    # the random tape (ghost rng_n / draw(k)): os.urandom is recorded while the real function runs
+    tape = []
+    _urandom = os.urandom
+
+    def _rec(n):
+        v = _urandom(n)
+        tape.append(v)
+        return v
+    os.urandom = _rec
     try:
         result = fn(*call_args)
         if hasattr(result, "__next__") and not isinstance(result, (list, tuple)):
@@ -204,6 +214,10 @@ def check_one(c, args, repo_root):
         if isinstance(ex, (KeyboardInterrupt, SystemExit)):
             raise
         raised = ex
+    finally:
+        os.urandom = _urandom
+    env["rng_n"] = len(tape)
+    env["draw"] = lambda k: tape[k] if 0 <= k < len(tape) else None
     if raised is None:
         out["observed"] = {"returned": enc(result)}
         env["result"] = result
